@@ -11,6 +11,9 @@ NOTE = ("Trusted: the gosym interpreter and its intrinsics (validated on every r
         "nothing outside them is claimed. Goroutine interleavings are not explored.")
 
 claimed = {
+ "C03": ("DESIGN.md §4 C03", "Time windows: for a table of period/every/align/fillPeriod configurations and every bounded non-decreasing timestamp sequence the solver shows each emission is on the reference schedule with exactly the points in [T-period,T); the ring buffer is covered for histories of any length by an inductive step from an arbitrary valid state; count windows likewise."),
+ "C12": ("DESIGN.md §4 C12", "CircularQueue (join/union buffering): inductive step from an arbitrary valid state against an abstract FIFO. (union/join merge-order harnesses: see evidence for what is currently encoded.)"),
+ "C20": ("DESIGN.md §4 C20", "AuthorizeAction equals an independent nearest-granted-ancestor reference for all privilege tables over a small path universe and all resources of bounded length; DatabaseResource injectivity decided by the solver over all byte values (known finding recorded)."),
  "C09": ("DESIGN.md §4 C09", "Within the stated bounds the solver shows for every symbolic input (levels, ID bytes, operation choice) that the topic ordering comparator is a strict weak order refining level order, and that one arbitrary update of an arbitrary valid topic keeps sorted/MaxLevel/EventStates/previous-state consistent (inductive step, so histories of any length)."),
 }
 NA = {
